@@ -5,7 +5,7 @@ ENTRY = {
     "extra_props": ["IQE.Props.C30Gen"],
     "rule": "sqlgen statements (strata filter, case, join, agg, distinct, setop, cte, values, subquery, sort_limit rotating; generated catalogs of 1-4 tables, "
             "NULL densities 0/10/50/100 %, single-batch and multi-batch registration alternating); every 5th statement gets LIMIT 0 on top so that empty results "
-            "(zero batches) are judged too; every 4th case is a RAW statement (family C29's tame generator over its fixed tables: functions, windows, ROLLUP, SELECT *, scalar subqueries - no plan JSON, judged by O only, run in a supervised child process); per statement: QueryResult.schema, ctx.physical_plan(sql).schema(), the schema of every returned batch and the data types of the "
+            "(zero batches) are judged too; 2 of every 10 cases belong to the stratum shape:union-plain-then-join (UNION ALL of a plain scan/projection and a hash join projecting a VARCHAR column of the small single-batch build side, both branch orders, the join alone, 3 branches, multi-batch probe side, LEFT/RIGHT joins; the child also drives the physical plan by hand and tags dict-batch when an operator hands out a dictionary-encoded array before the result boundary; batches>1 when several batches were returned; EVERY returned batch is compared with the reported schema); every 4th case is a RAW statement (family C29's tame generator over its fixed tables: functions, windows, ROLLUP, SELECT *, scalar subqueries - no plan JSON, judged by O only, run in a supervised child process); per statement: QueryResult.schema, ctx.physical_plan(sql).schema(), the schema of every returned batch and the data types of the "
             "batches' column arrays, compared by name and Arrow type (nullability ignored), plus schemaOf(plan) and the aliases written by the generator. "
             "non-trivial = the statement executed and the model types its plan; distinct by sha256 of the case",
     "trusted_base": COMMON_TB + [
@@ -18,7 +18,7 @@ ENTRY = {
         "names: only alias / bare-column names are modelled; rendered-expression names (Display of the bound expression) are unspecified",
         "logical types: Int8..Int64/UInt* -> int, Float32/64 -> f64, Utf8 variants -> str, Date32 -> date, Boolean -> bool; O compares the exact Arrow types of the four views with each other",
     ],
-    "min_tags": {"status:ok": 50, "model:typed": 50, "batches:0": 5, "batches:some": 20},
+    "min_tags": {"shape:union-plain-then-join": 40, "batches>1": 25, "dict-batch": 5, "status:ok": 50, "model:typed": 50, "batches:0": 5, "batches:some": 20},
     "explanation": "O = the four views of the schema agree (count, names, Arrow types) for every executed statement; K = reported logical types equal Spec.schemaOf(plan) and reported names equal the written aliases.",
     "manifest": {
         "category": "proof",
